@@ -27,13 +27,21 @@ func (b *batch) Put(key, value []byte) error {
 	copied := make([]byte, len(value))
 	copy(copied, value)
 
-	b.writeOps = append(b.writeOps, writeOp{key: key, value: copied})
+	b.writeOps = append(b.writeOps, writeOp{key: copyKey(key), value: copied})
 	return nil
 }
 
 func (b *batch) Delete(key []byte) error {
-	b.writeOps = append(b.writeOps, writeOp{isDelete: true, key: key})
+	b.writeOps = append(b.writeOps, writeOp{isDelete: true, key: copyKey(key)})
 	return nil
+}
+
+// copyKey detaches the buffered key from the caller's slice, which the caller
+// is free to reuse before Commit.
+func copyKey(key []byte) []byte {
+	copied := make([]byte, len(key))
+	copy(copied, key)
+	return copied
 }
 
 func (b *batch) Commit() error {
